@@ -12,6 +12,7 @@ import (
 
 	bitfield "github.com/OffchainLabs/go-bitfield"
 	"github.com/ethereum/go-ethereum/p2p/enode"
+	"github.com/ethereum/go-ethereum/p2p/enr"
 	"github.com/zen-eth/shisui/portalwire"
 
 	"verifharness/common"
@@ -283,6 +284,12 @@ func permitScenario(t int, seed int64, slow bool) ([]map[string]any, error) {
 		}
 		defer R.Close()
 		kind := k
+		ver := rng.Intn(2) // the protocol version this peer speaks (and advertises)
+		if ver == 1 {
+			R.LN.Set(enr.WithEntry("pv", []byte{0, 1}))
+		} else {
+			R.LN.Set(enr.WithEntry("pv", []byte{0}))
+		}
 		R.D5.RegisterTalkHandler(string(portalwire.History), func(id *enode.Node, addr *stdnet.UDPAddr, msg []byte) []byte {
 			if len(msg) == 0 || msg[0] != portalwire.OFFER {
 				return nil
@@ -294,7 +301,16 @@ func permitScenario(t int, seed int64, slow bool) ([]map[string]any, error) {
 			}
 			cid := make([]byte, 2)
 			binary.BigEndian.PutUint16(cid, 4242)
-			v1 := func(codes []uint8) []byte {
+			v1 := func(codes []uint8) []byte { // verdict list in the encoding of the peer's version (0 = accepted)
+				if ver == 0 {
+					bl := bitfield.NewBitlist(uint64(len(codes)))
+					for i, c := range codes {
+						bl.SetBitAt(uint64(i), c == 0)
+					}
+					a := &portalwire.Accept{ConnectionId: cid, ContentKeys: bl}
+					b, _ := a.MarshalSSZ()
+					return append([]byte{portalwire.ACCEPT}, b...)
+				}
 				a := &portalwire.AcceptV1{ConnectionId: cid, ContentKeys: codes}
 				b, _ := a.MarshalSSZ()
 				return append([]byte{portalwire.ACCEPT}, b...)
@@ -306,8 +322,17 @@ func permitScenario(t int, seed int64, slow bool) ([]map[string]any, error) {
 				return []byte{portalwire.CONTENT, 0, 1, 2}
 			case pkUndecodable:
 				return []byte{portalwire.ACCEPT, 1}
-			case pkWrongCount:
-				return v1(make([]uint8, nkeys+1))
+			case pkWrongCount: // one verdict too many (or too few), some of them "accepted"
+				codes := make([]uint8, nkeys+1)
+				if nkeys > 1 && len(msg)%2 == 0 {
+					codes = make([]uint8, nkeys-1)
+				}
+				for i := range codes {
+					if i%2 == 1 {
+						codes[i] = uint8(portalwire.GenericDeclined)
+					}
+				}
+				return v1(codes)
 			case pkDeclined:
 				codes := make([]uint8, nkeys)
 				for i := range codes {
@@ -324,7 +349,6 @@ func permitScenario(t int, seed int64, slow bool) ([]map[string]any, error) {
 			sw.Detach(R.Addr)
 		}
 	}
-	_ = bitfield.Bitlist{}
 	kn := []string{}
 	for _, k := range peerKinds {
 		kn = append(kn, pkNames[k])
